@@ -10,6 +10,7 @@ import (
 	"path/filepath"
 	"strconv"
 	"strings"
+	"sync"
 
 	"github.com/Dash-Industry-Forum/livesim2/pkg/chunkparser"
 	"github.com/Eyevinn/dash-mpd/mpd"
@@ -23,6 +24,7 @@ type Receiver struct {
 	ctx        context.Context
 	prefix     string
 	storage    string
+	streamsMu  sync.Mutex        // protects streams
 	streams    map[string]stream // mapped by stream.id()
 	channelMgr *ChannelMgr
 }
@@ -85,20 +87,12 @@ func (r *Receiver) SegmentHandlerFunc(w http.ResponseWriter, req *http.Request) 
 		return
 	}
 	verifGate("streams_r:" + stream.trName)
-	if _, ok := r.streams[stream.id()]; !ok {
-		verifGate("streams_w:" + stream.trName)
-		log.Info("New stream", "urlPath", path, "streamId", stream.id(), "mediaType", stream.mediaType)
-		r.streams[stream.id()] = stream
-		err := os.MkdirAll(stream.trDir, 0755)
-		if err != nil {
-			log.Error("Failed to create directory", "err", err)
-			http.Error(w, "Failed to create directory", http.StatusInternalServerError)
-			return
-		}
-		err = findAndProcessOrigInitSegment(log, ch, stream)
-		if err != nil {
-			log.Error("Failed to find and process original init segment", "err", err)
-		}
+	verifGate("streams_w:" + stream.trName)
+	err := r.registerStream(log, ch, stream, path)
+	if err != nil {
+		log.Error("Failed to create directory", "err", err)
+		http.Error(w, "Failed to create directory", http.StatusInternalServerError)
+		return
 	}
 	defer func() {
 		log.Debug("Closing body", "url", path)
@@ -110,7 +104,6 @@ func (r *Receiver) SegmentHandlerFunc(w http.ResponseWriter, req *http.Request) 
 	log.Debug("Headers", "path", path, "headers", req.Header)
 
 	var contentLength int
-	var err error
 	if req.Header.Get("Content-Length") != "" {
 		contentLength, err = strconv.Atoi(req.Header.Get("Content-Length"))
 		if err != nil {
@@ -376,6 +369,28 @@ func (r *Receiver) SegmentHandlerFunc(w http.ResponseWriter, req *http.Request) 
 		}
 	}
 	trD.nrSegsReceived++
+}
+
+// registerStream makes a stream known the first time it is seen: its directory is created
+// and an earlier original init segment is loaded. The stream table is shared by all request
+// handlers, so it is only touched under streamsMu.
+func (r *Receiver) registerStream(log *slog.Logger, ch *channel, stream stream, path string) error {
+	r.streamsMu.Lock()
+	defer r.streamsMu.Unlock()
+	if _, ok := r.streams[stream.id()]; ok {
+		return nil
+	}
+	log.Info("New stream", "urlPath", path, "streamId", stream.id(), "mediaType", stream.mediaType)
+	r.streams[stream.id()] = stream
+	err := os.MkdirAll(stream.trDir, 0755)
+	if err != nil {
+		return err
+	}
+	err = findAndProcessOrigInitSegment(log, ch, stream)
+	if err != nil {
+		log.Error("Failed to find and process original init segment", "err", err)
+	}
+	return nil
 }
 
 // DiscardUpload reads and discards the upload and returns the status code.
